@@ -32,3 +32,38 @@ contract("InitialStateContainer.get_ancilla_qubit_operation", params=dict(self=I
 @specfun("dict_get_or")
 def _dict_get_or(ex, st, d, k, default):
     return ex.dict_get(st, d, k, default)
+
+
+@specfun("dict_keys")
+def _dict_keys(ex, st, d):
+    return ex.dict_keys(st, d)
+
+
+# ---------------------------------------------------------------- RepetitionCodeDescription.get_operations (defect c970e41 was here)
+RCD = REF("RepetitionCodeDescription")
+fields("RepetitionCodeDescription", _data_qubit_ids=SEQ(REF("IQubitID")), _ancilla_qubit_ids=SEQ(REF("IQubitID")),
+       _qubit_index_map=DICT(REF("IQubitID"), INT))
+classinv("InitialStateContainer", "self.initial_states is not None", "self.ancilla_initial_states is not None")
+classinv("RepetitionCodeDescription", "self._qubit_index_map is not None")
+KD = "dict_keys(initial_state.initial_states)"
+KA = "dict_keys(initial_state.ancilla_initial_states)"
+
+
+def prep(r, qubit, state):
+    return (f"let({r}, lambda r: fresh(r) and isinstance(r, SingleQubitOperation) and r.qubit_index == {qubit} and " +
+            " and ".join(f"implies({state} == InitialStateEnum.{s}, typeis(r, {g}))" for s, g in TABLE) + ")")
+
+
+contract("RepetitionCodeDescription.get_operations", params=dict(self=RCD, initial_state=ISC), returns=SEQ(REF("ICircuitOperation")), props=P,
+         pure=True, inst_depth=2,
+         requires=[f"forall({KD}, lambda k: 0 <= k and k < len(self._data_qubit_ids) and dict_has(self._qubit_index_map, self._data_qubit_ids[k]))",
+                   f"forall({KA}, lambda k: 0 <= k and k < len(self._ancilla_qubit_ids) and dict_has(self._qubit_index_map, self._ancilla_qubit_ids[k]))"],
+         ensures=[
+             f"len(result) == len({KD}) + len({KA})",
+             # first every requested DATA state, on the circuit index of data qubit k, in the key order of the request ...
+             f"forall_int(0, len({KD}), lambda j: let({KD}[j], lambda k: " +
+             prep("result[j]", "self._qubit_index_map[self._data_qubit_ids[k]]", "initial_state.initial_states[k]") + "))",
+             # ... then every requested ANCILLA state, taken from the ANCILLA states, on the circuit index of ancilla qubit k
+             f"forall_int(0, len({KA}), lambda j: let({KA}[j], lambda k: " +
+             prep(f"result[len({KD}) + j]", "self._qubit_index_map[self._ancilla_qubit_ids[k]]", "initial_state.ancilla_initial_states[k]") + "))",
+         ])
